@@ -303,6 +303,13 @@ package iavl
 //@   requires i.tree != nil ==> i.version >= 0 && len(i.nonces) == i.version + 1 && i.tree.ndb != nil && i.batch != nil
 //@   requires all(i.stack, n, n != nil && n.nodeKey != nil)
 //@   ensures [inv] i.tree != nil ==> len(i.nonces) == old(len(i.nonces)) && i.version == old(i.version)
+//@   let n0 = len(i.stack)
+//@   macro top = i.stack[len(i.stack) - 1]
+//@   ensures [rejects-bad-version] old(i.tree) != nil && exportNode != nil && (exportNode.Version > old(i.version) || exportNode.Version < 0) ==> err != nil && i.stack == old(i.stack)
+//@   ensures [leaf-pushed] err == nil && exportNode.Height == 0 ==> len(i.stack) == old(n0) + 1 && top != nil && top.size == 1 && top.subtreeHeight == 0 && top.key == exportNode.Key && top.value == exportNode.Value && top.leftNode == nil && top.rightNode == nil
+//@   ensures [inner-takes-two] err == nil && exportNode.Height != 0 && old(n0) >= 2 && old(i.stack[n0 - 1].subtreeHeight) < exportNode.Height && old(i.stack[n0 - 2].subtreeHeight) < exportNode.Height ==> len(i.stack) == old(n0) - 1 && top != nil && top.subtreeHeight == exportNode.Height && top.leftNode == old(i.stack[n0 - 2]) && top.rightNode == old(i.stack[n0 - 1]) && top.key == exportNode.Key
+//@   ensures [inner-size] err == nil && exportNode.Height != 0 && old(n0) >= 2 && old(i.stack[n0 - 1].subtreeHeight) < exportNode.Height && old(i.stack[n0 - 2].subtreeHeight) < exportNode.Height && old(i.stack[n0 - 2]) != old(i.stack[n0 - 1]) ==> top.size == old(i.stack[n0 - 2].size) + old(i.stack[n0 - 1].size) || old(i.stack[n0 - 2].size) + old(i.stack[n0 - 1].size) > 9223372036854775807 || old(i.stack[n0 - 2].size) + old(i.stack[n0 - 1].size) < 0 - 9223372036854775808
+//@   ensures [node-version] err == nil ==> top != nil && top.nodeKey != nil && top.nodeKey.version == exportNode.Version
 //@   modifies *
 
 
@@ -1093,4 +1100,40 @@ package iavl
 //@   callsite nodeDB).DeleteVersionsFrom [everything-above-target] arg0 == tree.ndb && arg1 == targetVersion + 1
 //@   callsite nodeDB).Commit [rollback-committed] arg0 == tree.ndb
 //@   callsite enableFastStorageAndCommitIfNotEnabled [index-rebuilt] !tree.skipFastStorageUpgrade && arg0 == tree
+//@   modifies *
+
+// ---------------------------------------------------------------- import.go: Commit — what the import writes as the root of the imported version (C10)
+//@ func (*Importer).Commit(i) (err)
+//@   props C10
+//@   nosafety
+//@   requires i != nil
+//@   requires i.tree != nil ==> i.batch != nil && i.tree.ndb != nil && allocated(i.tree.ndb)
+//@   requires all(i.stack, n, n != nil && n.nodeKey != nil)
+//@   ensures [no-import] old(i.tree) == nil ==> err != nil
+//@   ensures [unresolved-subtrees-rejected] old(i.tree) != nil && old(len(i.stack)) > 1 ==> err != nil
+//@   callsite Batch).Set@1 [empty-tree-marker] len(i.stack) == 0 && arg1 != nil && len(arg1) == 0
+//@   callsite Importer).writeNode [root-gets-nonce-one] len(i.stack) == 1 && arg1 == i.stack[0] && i.stack[0].nodeKey.nonce == 1
+//@   callsite Batch).Set@2 [reference-root-only-for-older-root] len(i.stack) == 1 && i.stack[0].nodeKey.version < i.version
+//@   modifies *
+
+// ---------------------------------------------------------------- unsaved_fast_iterator.go: which uncommitted additions take part in an iteration, and in which order (C08/C07)
+//
+// An addition is kept exactly when its key lies in the iteration domain
+// [start, end) — an ABSENT bound (nil) is open, an EMPTY one is a bound like any
+// other (nothing lies below the empty key); the kept keys are then ordered by
+// the direction of the iteration.
+//@ func NewUnsavedFastIterator$1(k, v) (cont)
+//@   props C08 C07
+//@   nosafety
+//@   macro key = ptr(v, "fastnode.Node").key
+//@   let n0 = len((*iter).unsavedFastNodesToSort)
+//@   ensures [all-visited] cont
+//@   ensures [kept-iff-in-domain] (len((*iter).unsavedFastNodesToSort) == old(n0) + 1) == old(inR(ord(key), *start != nil, ord(*start), *end != nil, ord(*end), false))
+//@   ensures [otherwise-untouched] !old(inR(ord(key), *start != nil, ord(*start), *end != nil, ord(*end), false)) ==> (*iter).unsavedFastNodesToSort == old((*iter).unsavedFastNodesToSort)
+//@   modifies *
+
+//@ func NewUnsavedFastIterator$2(i, j) (less)
+//@   props C08 C07
+//@   nosafety
+//@   ensures [direction] less == ite(*ascending, ord((*iter).unsavedFastNodesToSort[i]) < ord((*iter).unsavedFastNodesToSort[j]), ord((*iter).unsavedFastNodesToSort[i]) > ord((*iter).unsavedFastNodesToSort[j]))
 //@   modifies *
